@@ -160,6 +160,10 @@ func (s *State) Iterate(fn func(key []byte, value []byte) bool) (stopped bool) {
 		if err != nil {
 			continue
 		}
+		if bytes.Equal(value, []byte(TOMBSTONE)) {
+			// deleted in the block or tx session: the key is still in the committed tree
+			continue
+		}
 		stop := fn(key, value)
 		if stop {
 			return true
@@ -178,6 +182,10 @@ func (s *State) IterateRange(start, end []byte, ascending bool, fn func(key, val
 	for _, key := range keys {
 		value, err := s.Get(key)
 		if err != nil {
+			continue
+		}
+		if bytes.Equal(value, []byte(TOMBSTONE)) {
+			// deleted in the block or tx session: the key is still in the committed tree
 			continue
 		}
 		stop := fn(key, value)
